@@ -2,6 +2,7 @@
 // @id C20.potential_factor
 // @engine B
 // @entry vfh_C20_potential_factor
+// @shared_state_watch
 // @tier Q
 // @reach potential.done
 // @funcs Phreeqc::add_potential_factor
@@ -12,6 +13,7 @@
 // @id C20.dl_charge_rows
 // @engine B
 // @entry vfh_C20_dl_rows
+// @shared_state_watch
 // @tier Q
 // @reach rows.done
 // @funcs Phreeqc::mb_for_species_aq; Phreeqc::store_mb_unknowns
